@@ -39,11 +39,11 @@ impl Prop for C01 {
     vec![
       Leg {
         name: "wild trees",
-        source: Source::Generated(Box::new(|| tree(GenCfg::wild()).prop_map(|spec| TreeCase { spec }).boxed()), 12_000, 600_000),
+        source: Cases::Generated(Box::new(|| tree(GenCfg::wild()).prop_map(|spec| TreeCase { spec }).boxed()), 12_000, 600_000),
       },
       Leg {
         name: "ascii trees",
-        source: Source::Generated(
+        source: Cases::Generated(
           Box::new(|| tree(GenCfg::positional()).prop_map(|spec| TreeCase { spec }).boxed()),
           8_000,
           400_000,
